@@ -79,7 +79,7 @@
        status, the validators and the representation headers are the handler's.
    S5  [412]  A 412 does not carry the representation.
    S6  [expires(), its docstring]  see ExpFail.
-   S7  [gzip(), its docstring]  see GzipFail.
+   S7  [gzip(), its docstring]  see GzipAllowed and GzipFail.
 
    Fail(P, ln) names the violated clause ("" if none).                        *)
 EXTENDS Integers, Sequences
